@@ -542,7 +542,31 @@ func (p *parser) insertPrefixedDeclaration(rules []css_ast.Rule, prefix string, 
 }
 
 func (p *parser) lowerInset(loc logger.Loc, decl *css_ast.RDeclaration) ([]css_ast.Rule, bool) {
-	if tokens, ok := expandTokenQuad(decl.Value, ""); ok {
+	// Note: "auto" and "calc()" are single values just like numeric tokens are.
+	// Leaving such "inset" declarations alone while expanding the others would
+	// change which of them wins in a browser that doesn't support "inset".
+	isSingleValue := func(t css_ast.Token) bool {
+		return t.Kind.IsNumeric() ||
+			(t.Kind == css_lexer.TIdent && strings.EqualFold(t.Text, "auto")) ||
+			(t.Kind == css_lexer.TFunction && strings.EqualFold(t.Text, "calc"))
+	}
+	n := len(decl.Value)
+	ok := n >= 1 && n <= 4
+	for _, t := range decl.Value {
+		ok = ok && isSingleValue(t)
+	}
+	if ok {
+		var tokens [4]css_ast.Token
+		for i := range tokens {
+			switch {
+			case i < n:
+				tokens[i] = decl.Value[i]
+			case i == 3 && n > 1:
+				tokens[i] = decl.Value[1]
+			default:
+				tokens[i] = decl.Value[0]
+			}
+		}
 		mask := ^css_ast.WhitespaceAfter
 		if p.options.minifyWhitespace {
 			mask = 0
